@@ -41,7 +41,8 @@ def codeCfg0 : Cfg :=
   { recheck := Generated.C02.removeVersionRechecksRef, cloneLocked := Generated.C02.commitCloneUnderLock,
     allocLocked := Generated.C02.allocUnderCommitLock, findErrReleases := Generated.C02.findErrReleases,
     pendFirst := Generated.C02.pendBeforeCreate, closeCAS := Generated.C02.closeIsCAS,
-    getReaderAtomic := Generated.C02.getReaderOneSection, listFirst := Generated.C02.listBeforeLive }
+    getReaderAtomic := Generated.C02.getReaderOneSection, listFirst := Generated.C02.listBeforeLive,
+    rollDelPerInterval := Generated.C02.rollupDelPerInterval }
 
 def D.empty : D := { cfg := codeCfg0, st := St.init 0 0, readers := [], ok := false }
 
@@ -136,6 +137,7 @@ def step' (d : D) (ws : List String) : D × String :=
                         allocLocked := Generated.C02.allocUnderCommitLock, findErrReleases := Generated.C02.findErrReleases,
                         pendFirst := Generated.C02.pendBeforeCreate, closeCAS := Generated.C02.closeIsCAS,
                         getReaderAtomic := Generated.C02.getReaderOneSection, listFirst := Generated.C02.listBeforeLive,
+                        rollDelPerInterval := Generated.C02.rollupDelPerInterval,
                         threshold := th, targets := targetsOf ro },
                st := St.init v0 f0, readers := [], ok := true } "ok"
     | some [v0, f0, th, ro, rc, cl, al] =>
